@@ -196,7 +196,15 @@ impl<'a> SimStream<'a> {
                 break;
             }
         }
-        let key = mix(mix(0x11FE, self.stats.recorder_steps), self.total_calls);
+        // interleaving measure: where the parser was waiting (event kind, byte offset inside
+        // the event) when the recorder ran, and how many writes the recorder got in before
+        // the parser was scheduled again
+        let (code, within) = match self.edges.binary_search(&self.pos) {
+            Ok(i) => (self.data.get(self.edges[i]).copied().unwrap_or(0), 0usize),
+            Err(0) => (0, self.pos),
+            Err(i) => (self.data.get(self.edges[i - 1]).copied().unwrap_or(0), self.pos - self.edges[i - 1]),
+        };
+        let key = mix(mix(mix(0x11FE, code as u64), within as u64), ahead as u64);
         self.interleavings.insert(key);
         stepped
     }
